@@ -10,6 +10,7 @@ CONSTANTS
   ImsLe = TRUE
   ImsLocalTime = FALSE
   ImsNotAfterNow = FALSE
+  BigPositions = TRUE
   Tokens <- PathTokens
   MaxTokens = 3
   StartPaths <- EmptyOnly
